@@ -142,18 +142,24 @@ func NewDependencyGraph(projectRoot string) *DependencyGraph {
 
 // AddModule adds a module to the graph
 func (g *DependencyGraph) AddModule(moduleName, filePath string) *ModuleNode {
-	if node, exists := g.Nodes[moduleName]; exists {
-		return node
-	}
-
 	// Calculate relative path
 	relativePath, _ := filepath.Rel(g.ProjectRoot, filePath)
 
-	// Determine package name
-	packageName := g.extractPackageName(moduleName)
-
 	// Check if this is a package (__init__.py)
 	isPackage := strings.HasSuffix(filePath, "__init__.py")
+
+	if node, exists := g.Nodes[moduleName]; exists {
+		// A package m/ shadows a file m.py next to it: Python imports the package
+		if isPackage && !node.IsPackage {
+			node.FilePath = filePath
+			node.RelativePath = relativePath
+			node.IsPackage = true
+		}
+		return node
+	}
+
+	// Determine package name
+	packageName := g.extractPackageName(moduleName)
 
 	node := &ModuleNode{
 		Name:         moduleName,
